@@ -28,6 +28,11 @@
 //	             && ||, integer conversions T(x), bits.Len64, calls of earlier whitelisted kernels,
 //	             len(<parameterised slice>), x.M() / x.f of a slice element through the projection
 //	             table; error results nil / ErrX / &T{.., Err: ErrX}
+//	state        methods that mutate their receiver are translated state-passing (kernelSpec.state):
+//	             see kernels_state.go for the supported mutations, nilable element variables,
+//	             counted loops, local []int slices, calls of earlier receiver-method kernels and
+//	             error variables; an if / switch with a branch that jumps on some paths only has
+//	             the code after it emitted in both branches
 //	field reads  only those listed in the per-function parameterisation table (kernelSpec.fields,
 //	             kernelSpec.slices): the listed expression becomes a parameter of the Lean definition
 package main
@@ -75,6 +80,8 @@ type kernelSpec struct {
 	lean       string // name of the generated definition (namespace Acme.Gen.K)
 	fields     []kField
 	slices     []kSlice
+	vias       []kVia   // parameters only handed on to callees / components of the argument signal
+	state      *kState  // state-passing translation of a receiver-mutating method (kernels_state.go)
 	idTypes    []string // named Go types used as opaque identities (↦ Nat; only == and != allowed)
 	exactFloat bool     // float64(integer expr) ↦ the exact integer; integral float constants ↦ Int
 	model      string   // the hand-written model function it is proved equal to (documentation)
@@ -137,6 +144,56 @@ var moreKernelSpecs = []kernelSpec{
 
 func init() { kernelSpecs = append(kernelSpecs, moreKernelSpecs...) }
 
+// the state-changing half of the payload layout (property C01); see kernels_state.go
+func layoutState(arg string, outSize bool) *kState {
+	return &kState{slice: "sl.signals", size: "sl.size", outSize: outSize,
+		ignoreCalls: []string{"sl.generateFilters()"}, ignoreAssign: []string{"sl.filters"},
+		setter: "setRelativeStartPos", setField: "start", arg: arg}
+}
+
+var argSignal = []kVia{
+	{"sig.EntityID()", "id", kType{k: kId}},
+	{"sig.GetRelativeStartPos()", "sigStart", kType{k: kInt}},
+	{"sig.GetSize()", "sz", kType{k: kInt}},
+}
+
+var stateKernelSpecs = []kernelSpec{
+	{pkg: "acmelib", file: "signal_layout.go", goName: "SignalLayout.insert", lean: "layoutInsert",
+		slices: []kSlice{layoutSignals}, vias: argSignal, idTypes: []string{"EntityID"},
+		state: layoutState("sig", false), model: "Acme.Layout.insert"},
+	{pkg: "acmelib", file: "signal_layout.go", goName: "SignalLayout.append", lean: "layoutAppend",
+		slices: []kSlice{layoutSignals}, vias: append([]kVia{{"sl.size", "cap", kType{k: kInt}}}, argSignal...),
+		idTypes: []string{"EntityID"}, state: layoutState("sig", false), model: "Acme.Layout.append"},
+	{pkg: "acmelib", file: "signal_layout.go", goName: "SignalLayout.remove", lean: "layoutRemove",
+		slices: []kSlice{layoutSignals}, idTypes: []string{"EntityID"},
+		state: layoutState("", false), model: "Acme.Layout.remove"},
+	{pkg: "acmelib", file: "signal_layout.go", goName: "SignalLayout.removeAll", lean: "layoutRemoveAll",
+		slices: []kSlice{layoutSignals}, state: layoutState("", false), model: "[]"},
+	{pkg: "acmelib", file: "signal_layout.go", goName: "SignalLayout.compact", lean: "layoutCompact",
+		slices: []kSlice{layoutSignals}, state: layoutState("", false), model: "Acme.Layout.compact"},
+	{pkg: "acmelib", file: "signal_layout.go", goName: "SignalLayout.modifyStartBitsOnShrink", lean: "modifyStartBitsOnShrink",
+		fields: []kField{{"sig.EntityID()", "id"}}, slices: []kSlice{layoutSignals},
+		vias:    []kVia{{"sig.GetSize()", "sz", kType{k: kInt}}},
+		idTypes: []string{"EntityID"}, state: layoutState("", false), model: "Acme.Layout.shrinkStarts"},
+	{pkg: "acmelib", file: "signal_layout.go", goName: "SignalLayout.resize", lean: "layoutResize",
+		fields: []kField{{"sl.size", "cap"}}, slices: []kSlice{layoutSignals},
+		state: layoutState("", true), model: "Acme.Layout.verifyResize + the assignment of the size"},
+	{pkg: "acmelib", file: "signal_layout.go", goName: "SignalLayout.shiftLeft", lean: "shiftLeft",
+		slices: []kSlice{layoutSignals}, idTypes: []string{"EntityID"},
+		state: layoutState("", false), model: "Acme.Layout.shiftLeft"},
+	{pkg: "acmelib", file: "signal_layout.go", goName: "SignalLayout.shiftRight", lean: "shiftRight",
+		fields: []kField{{"sl.size", "cap"}}, slices: []kSlice{layoutSignals}, idTypes: []string{"EntityID"},
+		state: layoutState("", false), model: "Acme.Layout.shiftRight"},
+}
+
+func init() {
+	kernelSpecs = append(kernelSpecs, stateKernelSpecs...)
+	kernelSpecs = append(kernelSpecs, kernelSpec{pkg: "acmelib", file: "signal_layout.go",
+		goName: "SignalLayout.modifyStartBitsOnGrow", lean: "modifyStartBitsOnGrow",
+		fields: []kField{{"sl.size", "cap"}, {"sig.EntityID()", "id"}}, slices: []kSlice{layoutSignals},
+		idTypes: []string{"EntityID"}, state: layoutState("", false), model: "Acme.Layout.growStarts"})
+}
+
 // `sl.signals` of a SignalLayout: the signals in slice order, each seen as an Acme.Layout.Slot
 // (entity id, relative start position, size).
 var layoutSignals = kSlice{
@@ -197,6 +254,8 @@ func (t kType) lean() string {
 		return "List " + t.elem
 	case kErrT:
 		return "Option Cause"
+	case kElemOpt:
+		return "Option " + t.elem
 	}
 	return "?"
 }
@@ -222,6 +281,8 @@ func (t kType) String() string {
 		return "slice"
 	case kErrT:
 		return "error"
+	case kElemOpt:
+		return "nilable slice element"
 	}
 	return "untyped constant"
 }
@@ -242,6 +303,7 @@ type kContinue struct{}
 type kIndex struct {
 	name, list, idx string
 	ty              kType
+	opt             bool // assignment to an existing nilable element variable (name := some ..)
 }
 
 // kLoop: for idx, elem := range list { body }
@@ -251,6 +313,9 @@ type kLoop struct {
 	body            []kStmt
 	vars            []kVar // the variables visible at the loop, in declaration order
 	pos             token.Pos
+	stateful        bool // loop over the mutable state slice (kernels_state.go)
+	listTy          kType
+	start           string // != "": `for i := start; i < len(list); i++` (kernels_state.go)
 }
 type kVar struct {
 	name string
@@ -261,6 +326,7 @@ type kIf struct {
 	then, els []kStmt
 	what      string // "if" / "switch", for messages
 	pos       token.Pos
+	optVar    string // != "": `match optVar with | some optVar => then | none => els`
 }
 
 type kernelOut struct {
@@ -273,6 +339,10 @@ type kernelOut struct {
 	src    string
 	plain  bool // the Lean parameters are exactly the Go parameters (callable from other kernels)
 	nparam int
+
+	origins  []kOrigin // where each Lean parameter comes from (nil: not callable through kernelCall)
+	hasRecv  bool
+	mayPanic bool
 }
 
 type kErr struct {
@@ -295,7 +365,13 @@ type ktr struct {
 	mayPanic         bool     // contains an index expression: the result is wrapped in GoSem.Res
 	aux              []string // auxiliary definitions (loops and their continuations), in order
 	nloops           int
-	loop             *kLoopCtx
+
+	countedIdx string          // loop variable of the enclosing `for i := a; i < len(s); i++`
+	alias      map[string]bool // variables that are the current element of that loop (s[i])
+	stale      map[string]bool // element variables that may alias a mutated element
+	loopElem   string          // range variable of the enclosing loop over the state slice
+	elemGoType types.Type      // Go element type of the state slice
+	loop       *kLoopCtx
 }
 
 type kLoopCtx struct{ brk, cont string }
@@ -350,6 +426,9 @@ func (t *ktr) typeOf(ty types.Type, at ast.Node) kType {
 	if types.Identical(ty, types.Universe.Lookup("error").Type()) {
 		return kType{k: kErrT}
 	}
+	if t.elemGoType != nil && types.Identical(ty, t.elemGoType) {
+		return kType{k: kElemOpt, elem: t.stateSlice().elem}
+	}
 	if nt, ok := ty.(*types.Named); ok {
 		for _, n := range t.spec.idTypes {
 			if nt.Obj().Name() == n {
@@ -394,6 +473,13 @@ func (t *ktr) typeOf(ty types.Type, at ast.Node) kType {
 }
 
 func (t *ktr) supported(ty types.Type) bool {
+	if nt, ok := types.Unalias(ty).(*types.Named); ok {
+		for _, n := range t.spec.idTypes {
+			if nt.Obj().Name() == n {
+				return true
+			}
+		}
+	}
 	b, ok := ty.Underlying().(*types.Basic)
 	if !ok {
 		return false
@@ -464,6 +550,9 @@ func (t *ktr) expr(e ast.Expr) (string, kType) {
 		if !ok {
 			t.fail(x, "identifier `%s` is not an integer / bool parameter or a local variable of the kernel", x.Name)
 		}
+		if t.stale[name] {
+			t.fail(x, "element variable `%s` is read after another element was mutated (it could alias the mutated element)", x.Name)
+		}
 		return name, t.names[name]
 	case *ast.BinaryExpr:
 		switch x.Op {
@@ -526,7 +615,13 @@ func (t *ktr) projection(recv ast.Expr, member string, at ast.Expr) (string, kTy
 	}
 	name, ok := t.vars[t.info.Uses[id]]
 	if !ok || t.names[name].k != kElem {
+		if ok && t.names[name].k == kElemOpt {
+			t.fail(at, "member of the nilable element variable `%s` outside an `if %s != nil` branch", name, name)
+		}
 		return "", kType{}, false
+	}
+	if t.stale[name] {
+		t.fail(at, "element variable `%s` is read after another element was mutated (it could alias the mutated element)", name)
 	}
 	for _, sl := range t.spec.slices {
 		if sl.elem != t.names[name].elem {
@@ -626,6 +721,12 @@ func (t *ktr) call(c *ast.CallExpr) (string, kType) {
 			}
 			return "(" + b.lean + " " + a + ")", b.res
 		}
+	}
+	if cs, k, ok := t.kernelCall(c); ok && !k.plain {
+		if k.mayPanic || len(k.res) != 1 || k.spec.state != nil {
+			t.fail(c, "call of kernel %s in an expression (it may panic / returns a state: bind it with `x := ..`)", k.spec.goName)
+		}
+		return cs, k.res[0]
 	}
 	if k, ok := t.funcs[obj]; ok {
 		if !k.plain || len(k.res) != 1 || len(c.Args) != k.nparam {
@@ -747,6 +848,28 @@ func (t *ktr) binary(at ast.Node, x ast.Expr, op token.Token, y ast.Expr, res kT
 }
 
 func (t *ktr) compare(at ast.Node, x ast.Expr, op token.Token, y ast.Expr) string {
+	isNil := func(e ast.Expr) bool {
+		id, ok := unparen(e).(*ast.Ident)
+		if !ok {
+			return false
+		}
+		_, n := t.info.Uses[id].(*types.Nil)
+		return n
+	}
+	if (op == token.EQL || op == token.NEQ) && (isNil(x) || isNil(y)) {
+		other := x
+		if isNil(x) {
+			other = y
+		}
+		a, aty := t.expr(other)
+		if aty.k != kErrT && aty.k != kElemOpt {
+			t.fail(at, "comparison of a %s with nil", aty)
+		}
+		if op == token.EQL {
+			return "(" + a + " = none)"
+		}
+		return "(" + a + " ≠ none)"
+	}
 	a, aty := t.expr(x)
 	b, bty := t.expr(y)
 	if aty.k == kUntyped {
@@ -852,6 +975,9 @@ func (t *ktr) errValue(e ast.Expr) string {
 		if _, isNil := t.info.Uses[id].(*types.Nil); isNil {
 			return "none"
 		}
+		if name, ok := t.vars[t.info.Uses[id]]; ok && t.names[name].k == kErrT {
+			return name
+		}
 		if s, ok := sentinel(id); ok {
 			return s
 		}
@@ -865,6 +991,12 @@ func (t *ktr) errValue(e ast.Expr) string {
 					t.fail(e, "error literal `%s` without field names", exprStr(e))
 				}
 				if k, ok := kv.Key.(*ast.Ident); ok && k.Name == "Err" {
+					if vid, isID := unparen(kv.Value).(*ast.Ident); isID {
+						if name, ok := t.vars[t.info.Uses[vid]]; ok && t.names[name].k == kErrT {
+							found = name // the cause of a callee, passed through
+							continue
+						}
+					}
 					s, ok := sentinel(kv.Value)
 					if !ok {
 						t.fail(kv, "error cause `%s` that is not a package-level sentinel Err*", exprStr(kv.Value))
@@ -939,6 +1071,11 @@ func (t *ktr) assigned(id ast.Expr) (string, kType) {
 }
 
 func (t *ktr) stmt(s ast.Stmt) []kStmt {
+	if t.spec.state != nil {
+		if out, ok := t.stateStmt(s); ok {
+			return out
+		}
+	}
 	switch x := s.(type) {
 	case *ast.EmptyStmt:
 		return nil
@@ -978,8 +1115,18 @@ func (t *ktr) stmt(s ast.Stmt) []kStmt {
 				if t.isMapParam(ls) {
 					t.fail(ix, "index into the map `%s`", exprStr(ix.X))
 				}
+				if t.countedIdx != "" && idx == t.countedIdx && t.spec.state != nil && ls == t.fields[t.spec.state.slice].f.name {
+					// s[i] for the loop variable i of `for i := a; i < len(s); i++`: the current element
+					ety := kType{k: kElem, elem: lty.elem}
+					name := t.declare(id, ety)
+					t.alias[name] = true
+					return []kStmt{kLet{name, "cur_", ety, true}}
+				}
 				ety := kType{k: kElem, elem: lty.elem}
-				return []kStmt{kIndex{t.declare(id, ety), ls, idx, ety}}
+				if lty.elem == "Int" {
+					ety = kType{k: kInt}
+				}
+				return []kStmt{kIndex{name: t.declare(id, ety), list: ls, idx: idx, ty: ety}}
 			}
 			rhs, ty := t.expr(x.Rhs[0])
 			if ty.k == kUntyped {
@@ -1029,6 +1176,8 @@ func (t *ktr) stmt(s ast.Stmt) []kStmt {
 				rhs = t.value(vs.Values[0], ty)
 			} else if ty.k == kBool {
 				rhs = "false"
+			} else if ty.k == kElemOpt {
+				rhs = "none"
 			} else {
 				rhs = t.constLit(constant.MakeInt64(0), ty, x, false)
 			}
@@ -1051,7 +1200,7 @@ func (t *ktr) stmt(s ast.Stmt) []kStmt {
 		default:
 			t.fail(x, "else branch %T", e)
 		}
-		return []kStmt{kIf{cond, then, els, "if", x.Pos()}}
+		return []kStmt{kIf{cond, then, els, "if", x.Pos(), ""}}
 	case *ast.SwitchStmt:
 		if x.Init != nil {
 			t.fail(x, "switch statement with an init statement")
@@ -1095,7 +1244,7 @@ func (t *ktr) stmt(s ast.Stmt) []kStmt {
 		}
 		cur := deflt
 		for i := len(clauses) - 1; i >= 0; i-- {
-			cur = []kStmt{kIf{clauses[i].cond, clauses[i].body, cur, "switch", x.Pos()}}
+			cur = []kStmt{kIf{clauses[i].cond, clauses[i].body, cur, "switch", x.Pos(), ""}}
 		}
 		return cur
 	case *ast.BranchStmt:
@@ -1155,22 +1304,34 @@ func (t *ktr) stmt(s ast.Stmt) []kStmt {
 			}
 			lp.elem = t.declare(id, lp.elemTy)
 		}
+		lp.listTy = lty
+		if t.spec.state != nil && t.fields[t.spec.state.slice] != nil && ls == t.fields[t.spec.state.slice].f.name {
+			lp.stateful = true
+			if lp.elem == "_" {
+				t.fail(x, "loop over %s without a range variable", t.spec.state.slice)
+			}
+			t.loopElem = lp.elem
+		}
 		t.inLoop++
 		sw := t.inSwitch
 		t.inSwitch = 0
 		lp.body = t.block(x.Body.List)
 		t.inSwitch = sw
 		t.inLoop--
+		t.loopElem = ""
 		t.vars, t.names, t.scope = savedV, savedN, t.scope[:nscope:nscope]
 		var asg []kLet
 		outerAssigned(lp.body, map[string]bool{}, map[string]bool{}, &asg)
 		for _, a := range asg {
-			if a.name == lp.idx || a.name == lp.elem {
+			if a.name == lp.idx || (a.name == lp.elem && !lp.stateful) {
 				t.fail(x, "loop body assigns the range variable `%s`", a.name)
 			}
 		}
 		return []kStmt{lp}
 	case *ast.ForStmt:
+		if t.spec.state != nil {
+			return t.countedLoop(x)
+		}
 		t.fail(s, "for loop with init / condition / post (only `for .. := range <parameterised slice>` is translated)")
 	case *ast.GoStmt, *ast.DeferStmt, *ast.SelectStmt, *ast.SendStmt:
 		t.fail(s, "statement %T", s)
@@ -1199,7 +1360,7 @@ func terminates(ss []kStmt) bool {
 func hasJump(ss []kStmt) bool {
 	for _, s := range ss {
 		switch x := s.(type) {
-		case kRet, kBreak, kContinue, kLoop, kIndex:
+		case kRet, kBreak, kContinue, kLoop, kIndex, kBind, kStruct:
 			return true
 		case kIf:
 			if hasJump(x.then) || hasJump(x.els) {
@@ -1213,14 +1374,14 @@ func hasJump(ss []kStmt) bool {
 func hasIndex(ss []kStmt) bool {
 	for _, s := range ss {
 		switch x := s.(type) {
-		case kIndex:
+		case kIndex, kBind:
 			return true
 		case kIf:
 			if hasIndex(x.then) || hasIndex(x.els) {
 				return true
 			}
 		case kLoop:
-			if hasIndex(x.body) {
+			if hasIndex(x.body) || x.start != "" {
 				return true
 			}
 		}
@@ -1241,6 +1402,10 @@ func outerAssigned(ss []kStmt, declared map[string]bool, seen map[string]bool, o
 				*out = append(*out, x)
 			}
 		case kIndex:
+			if !x.opt {
+				declared[x.name] = true
+			}
+		case kBind:
 			declared[x.name] = true
 		case kIf:
 			for _, br := range [][]kStmt{x.then, x.els} {
@@ -1262,11 +1427,25 @@ func outerAssigned(ss []kStmt, declared map[string]bool, seen map[string]bool, o
 
 func pad(n int) string { return strings.Repeat("  ", n) }
 
+func ifEmpty(s, alt string) string {
+	if s == "" {
+		return alt
+	}
+	return s
+}
+
 // resLean is the Lean result type of the kernel (and of its loops and continuations).
 func (t *ktr) resLean() string {
 	var rs []string
 	for _, r := range t.res {
 		rs = append(rs, r.lean())
+	}
+	if st := t.spec.state; st != nil {
+		parts := []string{t.fields[st.slice].ty.lean()}
+		if st.outSize {
+			parts = append(parts, "Int")
+		}
+		rs = append(parts, rs...)
 	}
 	r := strings.Join(rs, " × ")
 	if t.mayPanic {
@@ -1317,13 +1496,35 @@ func (t *ktr) emit(ss []kStmt, ind int, k func(ind int) string) string {
 		return pad(ind) + t.loop.brk + "\n"
 	case kContinue:
 		only("continue")
+		if t.loop.cont == "" {
+			panic(kErr{token.NoPos, "continue after the state slice was reassigned inside the loop (the Go loop goes on over the old slice)"})
+		}
 		return pad(ind) + t.loop.cont + "\n"
 	case kLet:
 		return pad(ind) + "let " + s.name + " : " + s.ty.lean() + " := " + s.rhs + "\n" + rest(ind)
 	case kIndex:
-		return pad(ind) + "match Acme.GoSem.index? " + s.list + " " + s.idx + " with\n" +
+		if s.opt {
+			return pad(ind) + "(match Acme.GoSem.index? " + s.list + " " + s.idx + " with\n" +
+				pad(ind) + "| none => Acme.GoSem.Res.panic\n" +
+				pad(ind) + "| some v_ =>\n" +
+				pad(ind+1) + "let " + s.name + " : Option " + s.ty.elem + " := some v_\n" + rest(ind+1) + pad(ind) + ")\n"
+		}
+		return pad(ind) + "(match Acme.GoSem.index? " + s.list + " " + s.idx + " with\n" +
 			pad(ind) + "| none => Acme.GoSem.Res.panic\n" +
-			pad(ind) + "| some " + s.name + " =>\n" + rest(ind+1)
+			pad(ind) + "| some " + s.name + " =>\n" + rest(ind+1) + pad(ind) + ")\n"
+	case kBind:
+		return pad(ind) + "(match " + s.call + " with\n" +
+			pad(ind) + "| Acme.GoSem.Res.panic => Acme.GoSem.Res.panic\n" +
+			pad(ind) + "| Acme.GoSem.Res.val " + s.name + " =>\n" + rest(ind+1) + pad(ind) + ")\n"
+	case kStruct:
+		if t.loop == nil {
+			return rest(ind)
+		}
+		saved := t.loop
+		t.loop = &kLoopCtx{brk: saved.brk, cont: ""}
+		r := rest(ind)
+		t.loop = saved
+		return r
 	case kLoop:
 		t.nloops++
 		loopName := fmt.Sprintf("%s_loop%d", t.spec.lean, t.nloops)
@@ -1337,25 +1538,50 @@ func (t *ktr) emit(ss []kStmt, ind int, k func(ind int) string) string {
 			idxParam, idxNext, idxInit = " ("+s.idx+" : Int)", " ("+s.idx+" + (1 : Int))", " (0 : Int)"
 		}
 		saved := t.loop
-		t.loop = &kLoopCtx{brk: "(" + afterName + args + ")", cont: "(" + loopName + args + idxNext + " rest_)"}
-		cont := t.loop.cont
-		body := t.emit(s.body, 2, func(ind int) string { return pad(ind) + cont + "\n" })
+		preParam, preNext, preInit, nilBind, consBind := "", "", "", "", ""
+		if s.stateful {
+			lt := s.listTy.lean()
+			preParam, preNext, preInit = " (pre_ : "+lt+")", " (pre_ ++ ["+s.elem+"])", " []"
+			nilBind = "\n" + pad(2) + "let " + s.list + " : " + lt + " := pre_\n" + pad(2)
+			consBind = pad(2) + "let " + s.list + " : " + lt + " := (pre_ ++ " + s.elem + " :: rest_)\n"
+		}
+		t.loop = &kLoopCtx{brk: "(" + afterName + args + ")", cont: "(" + loopName + args + idxNext + preNext + " rest_)"}
+		body := t.emit(s.body, 2, func(ind int) string {
+			if t.loop.cont == "" {
+				panic(kErr{s.pos, "the loop body goes on after the state slice was reassigned (the Go loop would continue over the old slice): break or return"})
+			}
+			return pad(ind) + t.loop.cont + "\n"
+		})
 		brk := t.loop.brk
 		t.loop = saved
-		t.aux = append(t.aux, "def "+loopName+params+idxParam+" : List "+s.elemTy.elem+" → "+t.resLean()+"\n"+
-			"  | [] => "+brk+"\n  | "+s.elem+" :: rest_ =>\n"+body+"\n")
-		return pad(ind) + "(" + loopName + args + idxInit + " " + s.list + ")\n"
+		t.aux = append(t.aux, "def "+loopName+params+idxParam+preParam+" : List "+s.elemTy.elem+" → "+t.resLean()+"\n"+
+			"  | [] =>"+ifEmpty(nilBind, " ")+brk+"\n  | "+s.elem+" :: rest_ =>\n"+consBind+body+"\n")
+		if s.start != "" {
+			// for i := a; i < len(list); i++: the elements from a on; a negative start is a panic
+			// (the Go loop would index with it)
+			return pad(ind) + "if (" + s.start + " < (0 : Int)) then\n" + pad(ind+1) + "Acme.GoSem.Res.panic\n" + pad(ind) + "else\n" +
+				pad(ind+1) + "(" + loopName + args + " " + s.start + " (List.take (Int.toNat " + s.start + ") " + s.list + ") (List.drop (Int.toNat " + s.start + ") " + s.list + "))\n"
+		}
+		return pad(ind) + "(" + loopName + args + idxInit + preInit + " " + s.list + ")\n"
 	case kIf:
+		ite := func(ind int, a, b string) string {
+			if s.optVar != "" {
+				return pad(ind) + "(match " + s.optVar + " with\n" + pad(ind) + "| some " + s.optVar + " =>\n" + a +
+					pad(ind) + "| none =>\n" + b + pad(ind) + ")\n"
+			}
+			return pad(ind) + "if " + s.cond + " then\n" + a + pad(ind) + "else\n" + b
+		}
 		tT, tE := terminates(s.then), terminates(s.els)
 		if tT || tE {
 			if tT && tE && len(ss) > 1 {
 				panic(kErr{s.pos, "statements after an " + s.what + " all of whose branches return"})
 			}
-			return pad(ind) + "if " + s.cond + " then\n" + t.emit(s.then, ind+1, rest) +
-				pad(ind) + "else\n" + t.emit(s.els, ind+1, rest)
+			return ite(ind, t.emit(s.then, ind+1, rest), t.emit(s.els, ind+1, rest))
 		}
 		if hasJump(s.then) || hasJump(s.els) {
-			panic(kErr{s.pos, s.what + " with a branch that returns / breaks / continues / loops / indexes on some paths only"})
+			// a branch returns / breaks / continues / indexes on some paths only: no join is
+			// possible; what follows the conditional is emitted in both branches
+			return ite(ind, t.emit(s.then, ind+1, rest), t.emit(s.els, ind+1, rest))
 		}
 		var vars []kLet
 		outerAssigned([]kStmt{s}, map[string]bool{}, map[string]bool{}, &vars)
@@ -1374,8 +1600,7 @@ func (t *ktr) emit(ss []kStmt, ind int, k func(ind int) string) string {
 		}
 		kv := func(ind int) string { return pad(ind) + pat + "\n" }
 		r := pad(ind) + "let " + pat + " : " + strings.Join(ts, " × ") + " :=\n" +
-			pad(ind+1) + "if " + s.cond + " then\n" + t.emit(s.then, ind+2, kv) +
-			pad(ind+1) + "else\n" + t.emit(s.els, ind+2, kv)
+			ite(ind+1, t.emit(s.then, ind+2, kv), t.emit(s.els, ind+2, kv))
 		return r + rest(ind)
 	}
 	panic(kErr{token.NoPos, fmt.Sprintf("internal: statement %T", ss[0])})
@@ -1416,7 +1641,7 @@ func translateKernel(spec *kernelSpec, p *packages.Package, funcs map[types.Obje
 		}
 	}
 	t := &ktr{spec: spec, info: p.TypesInfo, fd: fd, fields: map[string]*kFieldUse{},
-		vars: map[types.Object]string{}, names: map[string]kType{}, funcs: funcs}
+		vars: map[types.Object]string{}, names: map[string]kType{}, funcs: funcs, stale: map[string]bool{}, alias: map[string]bool{}}
 	if fd == nil {
 		t.fail(nil, "function %s not found in %s", spec.goName, spec.file)
 	}
@@ -1436,6 +1661,17 @@ func translateKernel(spec *kernelSpec, p *packages.Package, funcs map[types.Obje
 	for _, f := range allFields {
 		t.fields[f.expr] = &kFieldUse{f: f}
 	}
+	// parameters that are only handed on to callees: type and root are given by the table
+	viaRoot := map[string]string{}
+	for _, v := range spec.vias {
+		if _, dup := t.fields[v.expr]; dup {
+			t.fail(fd, "`%s` is listed twice in the parameterisation table", v.expr)
+		}
+		f := kField{v.expr, v.name}
+		allFields = append(allFields, f)
+		t.fields[v.expr] = &kFieldUse{f: f, ty: v.ty, used: true}
+		viaRoot[v.expr] = strings.SplitN(v.expr, ".", 2)[0]
+	}
 	ast.Inspect(fd.Body, func(n ast.Node) bool {
 		e, ok := n.(ast.Expr)
 		if !ok {
@@ -1444,8 +1680,11 @@ func translateKernel(spec *kernelSpec, p *packages.Package, funcs map[types.Obje
 		if f := t.fieldMatch(e); f != nil && f.root == nil {
 			f.root = rootIdent(e)
 			if el, isSlice := sliceElem[f.f.expr]; isSlice {
-				switch t.info.Types[e].Type.Underlying().(type) {
+				switch st := t.info.Types[e].Type.Underlying().(type) {
 				case *types.Slice:
+					if spec.state != nil && spec.state.slice == f.f.expr {
+						t.elemGoType = st.Elem()
+					}
 					if sliceIsMap[f.f.expr] {
 						t.fail(e, "parameterised map `%s` is a slice", f.f.expr)
 					}
@@ -1467,8 +1706,14 @@ func translateKernel(spec *kernelSpec, p *packages.Package, funcs map[types.Obje
 		}
 		return true
 	})
+	if st := spec.state; st != nil {
+		if fu := t.fields[st.slice]; fu != nil && fu.root == nil { // only handed on / returned
+			fu.ty = kType{k: kList, elem: sliceElem[st.slice]}
+			viaRoot[st.slice] = strings.SplitN(st.slice, ".", 2)[0]
+		}
+	}
 	for _, f := range allFields {
-		if t.fields[f.expr].root == nil {
+		if t.fields[f.expr].root == nil && viaRoot[f.expr] == "" {
 			t.fail(fd, "the parameterised expression `%s` does not occur in the function any more", f.expr)
 		}
 	}
@@ -1483,24 +1728,35 @@ func translateKernel(spec *kernelSpec, p *packages.Package, funcs map[types.Obje
 	}
 	plist = append(plist, fd.Type.Params.List...)
 	placed := map[string]bool{}
+	out.hasRecv = fd.Recv != nil
+	callable := true
+	pidx := -1
 	for _, fl := range plist {
 		if len(fl.Names) == 0 {
 			out.plain = false
+			pidx++
 			continue
 		}
 		for _, id := range fl.Names {
+			pidx++
 			obj := t.info.Defs[id]
 			if obj != nil && t.supported(obj.Type()) && id.Name != "_" {
 				ty := t.typeOf(obj.Type(), id)
 				addParam(t.declare(id, ty), ty)
 				out.nparam++
+				out.origins = append(out.origins, kOrigin{goParam: pidx})
 				continue
 			}
 			// a receiver / pointer / struct parameter: replaced by the listed reads through it
 			out.plain = false
 			for _, f := range allFields {
 				fu := t.fields[f.expr]
-				if fu.root != nil && t.info.Uses[fu.root] == obj && obj != nil {
+				if (fu.root != nil && t.info.Uses[fu.root] == obj && obj != nil) || (fu.root == nil && viaRoot[f.expr] == id.Name) {
+					if strings.HasPrefix(f.expr, id.Name+".") {
+						out.origins = append(out.origins, kOrigin{goParam: -1, root: pidx, suffix: strings.TrimPrefix(f.expr, id.Name)})
+					} else {
+						callable = false
+					}
 					if _, clash := t.names[f.name]; clash {
 						t.fail(id, "parameter name %s used twice", f.name)
 					}
@@ -1517,8 +1773,14 @@ func translateKernel(spec *kernelSpec, p *packages.Package, funcs map[types.Obje
 			t.fail(fd, "the parameterised expression `%s` does not read through a parameter of the function", f.expr)
 		}
 	}
-	if fd.Type.Results == nil || len(fd.Type.Results.List) == 0 {
+	if !callable {
+		out.origins = nil
+	}
+	if (fd.Type.Results == nil || len(fd.Type.Results.List) == 0) && spec.state == nil {
 		t.fail(fd, "function without result")
+	}
+	if fd.Type.Results == nil {
+		fd.Type.Results = &ast.FieldList{}
 	}
 	for _, fl := range fd.Type.Results.List {
 		if len(fl.Names) > 0 {
@@ -1529,6 +1791,13 @@ func translateKernel(spec *kernelSpec, p *packages.Package, funcs map[types.Obje
 	out.res = t.res
 
 	ir := t.block(fd.Body.List)
+	if spec.state != nil {
+		out.plain = false
+		if len(t.res) == 0 && !terminates(ir) {
+			t.fields[spec.state.slice].used = true
+			ir = append(ir, kRet{t.stateTuple("")})
+		}
+	}
 	if !terminates(ir) {
 		t.fail(fd, "function body that does not end in a return on every path")
 	}
@@ -1536,6 +1805,7 @@ func translateKernel(spec *kernelSpec, p *packages.Package, funcs map[types.Obje
 	if t.mayPanic {
 		out.plain = false
 	}
+	out.mayPanic = t.mayPanic
 	out.body = t.emit(ir, 1, func(int) string { panic(kErr{fd.Pos(), "missing return"}) })
 	out.resTy, out.aux = t.resLean(), t.aux
 	for _, f := range allFields {
